@@ -138,7 +138,9 @@ pub fn create_string_to_sign(
         if let Some(qs) = qs {
             let mut is_first = true;
             for q in INCLUDED_QUERY {
-                if let Some(v) = qs.get_unique(q) {
+                // every occurrence is signed: the router only tests for presence,
+                // so a repeated sub-resource must not drop out of the string to sign
+                for v in qs.get_all(q) {
                     if is_first {
                         ans.push('?');
                         is_first = false;
